@@ -214,9 +214,14 @@ class Sim:
                     pass
             net.heap.clear()
 
-    def digest(self) -> str:
+    def digest(self, sizes=True) -> str:
+        """Digest of the event log.  sizes=False leaves segment sizes out (runs
+        with an ECDSA certificate: the signature length varies by a byte or two
+        per handshake, so ciphertext sizes are not a function of the tape)."""
         h = hashlib.sha256()
         for ev in self.net.events:
+            if not sizes:
+                ev = ev[:3]
             h.update(repr(ev).encode())
         return h.hexdigest()[:16]
 
